@@ -213,6 +213,9 @@ class SimTransport(asyncio.Transport):
         self.inp.buf.clear()
         self.loop.call_soon(self._call_connection_lost, exc)
         peer = self.peer
+        # what the peer had queued towards us is gone: a writer paused on it may go on (it will
+        # learn of the close by EOF)
+        self.loop.call_soon(peer._maybe_resume_protocol_safe)
         if exc is None and not self.out.reset:
             # orderly FIN: peer sees EOF after whatever is still in flight
             if not self.out.eof:
